@@ -308,6 +308,17 @@ func (g *filler) fillContainer(v reflect.Value, h *container, key string) {
 
 var linuxFamily = []int16{pack.OS_LINUX, pack.OS_OSX, pack.OS_AIX, pack.OS_HPUX}
 
+// the systems golib defines a code for but whose sections SMBasePack.Read has no record types for
+var otherUnix = []int16{pack.OS_SUNOS, pack.OS_OPENBSD, pack.OS_FREEBSD}
+
+// open known findings whose signature the generators steer around (ids from the kf argument)
+var kf = map[string]bool{}
+
+const kfSMBaseOS = "C03-smbase-os"
+
+// forceOS: the witness generator of kfSMBaseOS pins the operating system
+var forceOS int16
+
 func (g *filler) cpu(win bool, osx bool) pack.Cpu {
 	var c pack.Cpu
 	switch {
@@ -333,6 +344,12 @@ func (g *filler) hook(p interface{}, depth int) {
 			q.OS = pack.OS_WINDOW
 		} else {
 			q.OS = linuxFamily[g.r.Intn(len(linuxFamily))]
+			if !kf[kfSMBaseOS] && g.r.Intn(4) == 0 {
+				q.OS = otherUnix[g.r.Intn(len(otherUnix))]
+			}
+		}
+		if forceOS != 0 {
+			q.OS, win = forceOS, false
 		}
 		osx := q.OS == pack.OS_OSX && g.r.Intn(2) == 0
 		q.Cpu = g.cpu(win, osx)
